@@ -31,7 +31,7 @@ ANCHORS = [
     (E, "S256Field.__init__"), (E, "S256Field.sqrt"),
     (E, "S256Point.__init__"), (E, "S256Point.__eq__"), (E, "S256Point.__rmul__"), (E, "S256Point.__add__"),
     (E, "S256Point.even_point"), (E, "S256Point.sec"), (E, "S256Point.xonly"),
-    (E, "S256Point.parse"), (E, "S256Point.parse_sec"), (E, "S256Point.parse_xonly"),
+    (E, "S256Point.parse"), (E, "S256Point.parse_sec"), (E, "S256Point.parse_xonly"), (E, "S256Point.combine"),
 ]
 RULE = ("generic classes: every prime 5 <= p <= 61 (thorough: <= 251), the curve y^2 = x^3 + 7 plus seeded random "
         "(a, b); all element pairs for the four field operations, all point pairs of y^2 = x^3 + 7 for p <= 61 and of every curve "
@@ -39,7 +39,9 @@ RULE = ("generic classes: every prime 5 <= p <= 61 (thorough: <= 251), the curve
         "real classes per field / per curve (one evaluation = one complete field or curve). secp256k1: fixed "
         "boundary catalogue of scalars (0, 1, n-1, n, n+1, negative, >= 2^256, ...) plus seeded random scalars; "
         "points kG; pairs incl. equal / opposite / infinity; encodings of random points and a malformed stream "
-        "(every prefix byte, x >= p, non-residue x, wrong y, lengths 0/1/31/34/64/66). A case is non-trivial "
+        "(every prefix byte, x >= p, non-residue x, wrong y, lengths 0/1/31/34/64/66; boundary x = 0..7, p-2..p+1, "
+        "2^256-1 and boundary y incl. 0 for all three encodings with every prefix byte); S256Point.combine with list reuse"
+        " / tuple argument / single element. A case is non-trivial "
         "unless all its operands are infinity / zero; distinct = distinct (operation, input) pairs")
 CLAUSES = {
     "FieldElement + - * / ** are the field operations of ZMod p (every prime p)":
@@ -470,7 +472,26 @@ def p_parsed_is_valid(c):
     return True, "ok", "ok"
 
 
-PREDICATES = {"field_axioms": p_field_axioms, "group_axioms": p_group_axioms,
+def p_combine(c):
+    """S256Point.combine(points) is the sum of the points (left fold of +, itself compared with the model), does not
+    modify its argument, gives the same answer when called again on the same list, and accepts a tuple"""
+    from buidl.pecc import S256Point
+    G = _sG()
+    pts = [k * G for k in c["ks"]]
+    want = pts[0]
+    for q in pts[1:]:
+        want = want + q
+    lst = list(pts)
+    before = [pt_tok(q) for q in lst]
+    r1 = S256Point.combine(lst)
+    after = [pt_tok(q) for q in lst]
+    r2 = S256Point.combine(lst)
+    r3 = S256Point.combine(tuple(pts))
+    ok = _eq_pt(r1, want) and _eq_pt(r2, want) and _eq_pt(r3, want) and after == before and len(lst) == len(pts)
+    return ok, [pt_tok(r1), pt_tok(r2), pt_tok(r3), len(after)], [pt_tok(want)] * 3 + [len(before)]
+
+
+PREDICATES = {"field_axioms": p_field_axioms, "group_axioms": p_group_axioms, "combine": p_combine,
               "secp_add_hom": p_s_add_hom, "secp_mul_assoc": p_s_mul_assoc, "secp_order": p_s_order,
               "secp_neg_double": p_s_neg_double, "secp_add_int": p_s_add_int,
               "enc_roundtrip": p_enc_roundtrip, "must_reject": p_must_reject, "parsed_is_valid": p_parsed_is_valid}
@@ -623,6 +644,18 @@ def run(ctx):
     for c in pts[: ctx.n(10, 40)]:
         for k in cat[:: 4] + [rng.choice(rnd_scalars)]:
             lines.append(("saddint", f"saddint {c_tok(c)} {k}", True))
+    # int operands around both moduli (the coefficient is reduced mod N, never mod P), negative and huge ones
+    tcat = [0, 1, 2, N - 1, N, N + 1, P - 1, P, P + 1, P + N, 2 * P, 2**256 - 1, 2**256, 2**256 + 1, -1, -2, -N, -P,
+            -(P + 1), -(2**256), P - N, N - P]
+    for c in pts[: ctx.n(4, 12)]:
+        for k in tcat:
+            lines.append(("saddint", f"saddint {c_tok(c)} {k}", True))
+            preds.append(("secp_add_int", {"k": 0 if c is None else pk[pts.index(c) - 1], "j": k}))
+    # S256Point.combine: list reuse, tuple argument, single element, infinity and opposite points inside
+    for ks in ([1], [0], [1, 2], [1, N - 1], [0, 5, 0], [3, 3, 3], [N - 1, 1, 7], [5, N - 5, 0, 9]):
+        preds.append(("combine", {"ks": ks}))
+    for _ in range(ctx.n(15, 150)):
+        preds.append(("combine", {"ks": [rng.choice(scalars) for _ in range(rng.randrange(1, 6))]}))
     for c in pts + negs[1:]:
         if c is not None:
             lines.append(("evenpoint", f"evenpoint {c_tok(c)}", True))
@@ -696,6 +729,41 @@ def run(ctx):
                          (enc33[1:32], "length 31 of x")):
             bad.append((raw, why))
     bad.append((b"", "empty"))
+    # boundary abscissae for every encoding and every prefix byte: x = 0, 1, 2, 3, p-1, p, p+1, 2^256-1 (and y = 0 /
+    # boundary y for the 65-byte form).  33 / 65 bytes: must be rejected unless (x, y) is a curve point (x = 0 never
+    # is: 7 is a non-residue; y = 0 never is: -7 is not a cube); 32 bytes: compared with the model (all-zero is the
+    # point at infinity by design, O03d)
+    bxs = [0, 1, 2, 3, 4, 5, 6, 7, P - 1, P - 2, P, P + 1, 2**256 - 1]
+    boundary_streams = []
+
+    def lift(xv):
+        """(x, y) on the curve for this x, if any (plain integers)"""
+        if xv >= P:
+            return None
+        cc = (xv**3 + 7) % P
+        yv = pow(cc, (P + 1) // 4, P)
+        return (xv, yv) if yv * yv % P == cc and yv != 0 else None
+
+    for xv in bxs:
+        onc = lift(xv)
+        boundary_streams.append(be32(xv))
+        if onc is None and xv != 0:
+            bad.append((be32(xv), f"32 bytes, boundary x = {xv if xv < 8 else hex(xv)} is not an abscissa"))
+        for pre in range(256):
+            raw = bytes([pre]) + be32(xv)
+            boundary_streams.append(raw)
+            if not (pre in (2, 3) and onc is not None):
+                bad.append((raw, f"33 bytes, prefix {pre:02x}, boundary x = {xv if xv < 8 else hex(xv)}"))
+        ys = [0, 1, 2, P - 1, P, 2**256 - 1, GY] + ([onc[1], P - onc[1], onc[1] ^ 1] if onc else [])
+        for yv in ys:
+            for pre in (0, 2, 3, 4, 5, 6, 7, 0xFF):
+                raw = bytes([pre]) + be32(xv) + be32(yv)
+                boundary_streams.append(raw)
+                if not (pre == 4 and onc is not None and yv in (onc[1], P - onc[1])):
+                    bad.append((raw, f"65 bytes, prefix {pre:02x}, boundary x, y = {yv if yv < 8 else hex(yv)}"))
+    for c in pts[1: ctx.n(4, 12)]:          # y = 0 / boundary y with a genuine abscissa
+        for yv in (0, 1, P, 2**256 - 1):
+            bad.append((bytes([4]) + be32(c[0]) + be32(yv), f"65 bytes, genuine x, y = {yv if yv < 8 else hex(yv)}"))
     for xg in (P, P + 1, P + 2, 2**256 - 1, 2**256 - 2):
         for pre in (2, 3):
             bad.append((bytes([pre]) + be32(xg), "33 bytes, x >= p"))
@@ -706,6 +774,7 @@ def run(ctx):
         bad.append((bytes([rng.choice([2, 3])]) + be32(x), "33 bytes, x^3+7 is a non-residue"))
         bad.append((be32(x), "32 bytes, x^3+7 is a non-residue"))
     streams = list(good) + [b for b, _ in bad] + [b"\x00" * 32, b"\x00" * 33, b"\x00" * 65, b"\x04" + b"\x00" * 64]
+    streams += boundary_streams
     for _ in range(ctx.n(600, 6000)):
         ln = rng.choice([32, 33, 33, 65, 65, rng.choice([0, 1, 31, 34, 64, 66])])
         raw = bytearray(rng.getrandbits(8 * ln).to_bytes(ln, "big")) if ln else bytearray()
